@@ -622,6 +622,12 @@ macro_rules! group_impl {
                     ("affzero", 0) => show_aff(&$aff::zero()),
                     ("affiszero", 1) => show_bool(parse_aff(a[0])?.is_zero()),
                     ("jaciszero", 1) => show_bool(parse_jac(a[0])?.is_zero()),
+                    ("rnd", 1) => {
+                        let words: Vec<u64> = a[0].split(',').map(|w| u64::from_str_radix(w, 16).ok()).collect::<Option<Vec<u64>>>()?;
+                        let mut rng = ReplayRng { words, pos: 0, calls: 0 };
+                        let p = $proj::random(&mut rng);
+                        format!("{} {}", show_jac(&p), rng.calls)
+                    }
                     ("random", 1) => {
                         use rand_core::SeedableRng;
                         let l = parse_limbs(a[0], 2)?;
@@ -965,12 +971,13 @@ fn misc_op(op: &str, a: &[&str]) -> R {
 
 // ------------------------------------------------------------------ Montgomery / limb level
 
-/// an RNG that replays a list of words (0 after the last one) and counts the `next_u64` calls
+/// an RNG that replays a list of words (after the last one: the number of the call, 1-based; an endless stream of zeros
+/// would make `CurveProjective::random` loop forever on x = 0) and counts the `next_u64` calls
 struct ReplayRng { words: Vec<u64>, pos: usize, calls: usize }
 impl rand_core::RngCore for ReplayRng {
     fn next_u64(&mut self) -> u64 {
         self.calls += 1;
-        let w = if self.pos < self.words.len() { self.words[self.pos] } else { 0 };
+        let w = if self.pos < self.words.len() { self.words[self.pos] } else { self.calls as u64 };
         self.pos += 1;
         w
     }
